@@ -17,11 +17,11 @@ def gen_install(rng, tier):
                 ops.append("rm %d %s" % (rng.choice([1, 2]), k))
             else:
                 ops.append("pub %d %s v%d" % (rng.choice([1, 2]), k, j))
-        ops += ["settle 1500", "start 3", "settle 12000"]
+        ops += ["settle 1500", "start 3", "caughtup 3 90000", "settle 3000"]
         # without operator intervention (known finding F10 until the restart below)
         late = ["getall %s" % k for k in keys[:3]] + ["getall verif-up"]
-        restart = ["kill 3", "start 3", "settle 9000"] + ["getall %s" % k for k in keys] + ["getall verif-up"]
-        more = ["pub 2 k0 after-install", "settle 2500", "getall k0", "kill 3", "start 3", "settle 9000", "getall k0", "getall k1"]
+        restart = ["kill 3", "start 3", "caughtup 3 90000", "settle 3000"] + ["getall %s" % k for k in keys] + ["getall verif-up"]
+        more = ["pub 2 k0 after-install", "settle 2500", "getall k0", "kill 3", "start 3", "caughtup 3 90000", "settle 3000", "getall k0", "getall k1"]
         cases.append(Case("install-%d" % i, ops + restart + more, True, "random"))
         if i == 0:
             cases.append(Case("install-late-%d" % i, ops + late, True, "boundary"))
